@@ -16,6 +16,7 @@ Definition step_ev (c : cst) (t : nat) : option ev :=
     | LIdle => match t_todo th with AIns p :: _ => Some (ev_of_payload p) | _ => None end
     | LCas fs m f st new => if bool_decide (stamp c f = st) then Some (EDown m (Some f)) else None
     | LMark _ _ => None
+    | LPanic _ _ => None
     end
   end.
 
@@ -29,15 +30,15 @@ Definition snap_ok (c : cst) : Prop :=
     (st <= stamp c f)%N /\
     ((st = stamp c f) -> forall x : N * N, x.1 = f -> (x ∈ new <-> x = (f, m) \/ x ∈ wdm (c_rib c))).
 
-Lemma stamp_insert c f v f' ri lk th fl :
-  stamp (MkC ri (<[f := v]> (c_stamps c)) lk th fl) f' = if decide (f = f') then v else stamp c f'.
+Lemma stamp_insert c f v f' ri lk th fl po pa :
+  stamp (MkC ri (<[f := v]> (c_stamps c)) lk th fl po pa) f' = if decide (f = f') then v else stamp c f'.
 Proof.
   unfold stamp. cbn [c_stamps]. destruct (decide (f = f')) as [->|Hne].
   - rewrite lookup_insert. reflexivity.
   - rewrite lookup_insert_ne by exact Hne. reflexivity.
 Qed.
 
-Lemma stamp_keep c ri lk th fl f : stamp (MkC ri (c_stamps c) lk th fl) f = stamp c f.
+Lemma stamp_keep c ri lk th fl po pa f : stamp (MkC ri (c_stamps c) lk th fl po pa) f = stamp c f.
 Proof. reflexivity. Qed.
 
 Lemma wdm_insert_payload r p : wdm (rib_insert_payload r p) = wdm r.
@@ -64,18 +65,35 @@ Proof.
   - right. rewrite list_lookup_insert_ne in H by exact Hne. auto.
 Qed.
 
+Lemma step_length ser c t : length (c_thr (step ser c t)) = length (c_thr c).
+Proof.
+  unfold step. destruct (c_thr c !! t) as [th0|]; [|reflexivity].
+  destruct (t_loc th0) as [|fs m|fs m f st new|m f].
+  - destruct (t_todo th0) as [|[p|fs m|m f] rest]; [reflexivity|cbn; apply insert_length| |];
+      (destruct ser; [destruct (c_lock c)|]; [reflexivity|cbn; apply insert_length|cbn; apply insert_length]).
+  - destruct fs; cbn; apply insert_length.
+  - destruct (bool_decide _); cbn; apply insert_length.
+  - cbn. apply insert_length.
+Qed.
+
 Lemma snap_ok_step ser c t : snap_ok c -> snap_ok (step ser c t).
 Proof.
   intros Hok. unfold step.
   destruct (c_thr c !! t) as [th|] eqn:Eth; [|exact Hok].
-  destruct (t_loc th) as [|fs m|fs m f st new] eqn:Eloc.
-  - destruct (t_todo th) as [|[p|fs m] rest] eqn:Etodo; [exact Hok| |].
+  destruct (t_loc th) as [|fs m|fs m f st new|m f] eqn:Eloc.
+  - destruct (t_todo th) as [|[p|fs m|m f] rest] eqn:Etodo; [exact Hok| | |].
     + intros t' th' fs' m' f' st' new' Hth' Hloc'. cbn [c_thr] in Hth'.
       apply thr_lookup_insert in Hth' as [(-> & -> & _)|(Hne & Hth')]; [discriminate|].
       rewrite !stamp_keep. cbn [c_rib]. rewrite wdm_insert_payload.
       exact (Hok _ _ _ _ _ _ _ Hth' Hloc').
-    + assert (snap_ok (MkC (c_rib c) (c_stamps c) (Some t) (<[t:=MkThr rest (LMark fs m)]> (c_thr c)) (c_fail c)) /\
-              snap_ok (MkC (c_rib c) (c_stamps c) (c_lock c) (<[t:=MkThr rest (LMark fs m)]> (c_thr c)) (c_fail c))) as [H1 H2].
+    + assert (snap_ok (MkC (c_rib c) (c_stamps c) (Some t) (<[t:=MkThr rest (LMark fs m)]> (c_thr c)) (c_fail c) (c_poison c) (c_panics c)) /\
+              snap_ok (MkC (c_rib c) (c_stamps c) (c_lock c) (<[t:=MkThr rest (LMark fs m)]> (c_thr c)) (c_fail c) (c_poison c) (c_panics c))) as [H1 H2].
+      { split; intros t' th' fs' m' f' st' new' Hth' Hloc'; cbn [c_thr] in Hth';
+          (apply thr_lookup_insert in Hth' as [(-> & -> & _)|(Hne & Hth')]; [discriminate|]);
+          exact (Hok _ _ _ _ _ _ _ Hth' Hloc'). }
+      destruct ser; [destruct (c_lock c); [exact Hok|exact H1]|exact H2].
+    + assert (snap_ok (MkC (c_rib c) (c_stamps c) (Some t) (<[t:=MkThr rest (LPanic m f)]> (c_thr c)) (c_fail c) (c_poison c) (c_panics c)) /\
+              snap_ok (MkC (c_rib c) (c_stamps c) (c_lock c) (<[t:=MkThr rest (LPanic m f)]> (c_thr c)) (c_fail c) (c_poison c) (c_panics c))) as [H1 H2].
       { split; intros t' th' fs' m' f' st' new' Hth' Hloc'; cbn [c_thr] in Hth';
           (apply thr_lookup_insert in Hth' as [(-> & -> & _)|(Hne & Hth')]; [discriminate|]);
           exact (Hok _ _ _ _ _ _ _ Hth' Hloc'). }
@@ -109,6 +127,9 @@ Proof.
       * cbn [t_loc] in Hloc'. injection Hloc' as <- <- <- <- <-.
         rewrite !stamp_keep. split; [exact Hle|]. intros Heq. congruence.
       * exact (Hok _ _ _ _ _ _ _ Hth' Hloc').
+  - intros t' th' fs' m' f' st' new' Hth' Hloc'. cbn [c_thr] in Hth'.
+    apply thr_lookup_insert in Hth' as [(-> & -> & _)|(Hne & Hth')]; [discriminate|].
+    exact (Hok _ _ _ _ _ _ _ Hth' Hloc').
 Qed.
 
 Lemma snap_ok_run ser s : forall c, snap_ok c -> snap_ok (run ser c s).
@@ -122,9 +143,10 @@ Lemma step_rib ser c t : snap_ok c ->
 Proof.
   intros Hok. unfold step, step_ev.
   destruct (c_thr c !! t) as [th|] eqn:Eth; [|reflexivity].
-  destruct (t_loc th) as [|fs m|fs m f st new] eqn:Eloc.
-  - destruct (t_todo th) as [|[p|fs m] rest]; [reflexivity| |].
+  destruct (t_loc th) as [|fs m|fs m f st new|m f] eqn:Eloc; [| | |reflexivity].
+  - destruct (t_todo th) as [|[p|fs m|m f] rest]; [reflexivity| | |].
     + cbn [c_rib]. apply rib_insert_payload_ev.
+    + destruct ser; [destruct (c_lock c)|]; reflexivity.
     + destruct ser; [destruct (c_lock c)|]; reflexivity.
   - destruct fs; reflexivity.
   - destruct (bool_decide (stamp c f = st)) eqn:Hb; [|reflexivity].
@@ -160,9 +182,9 @@ Qed.
 
 Definition marks (m : N) (fs : list N) : list ev := map (fun f => EDown m (Some f)) fs.
 Definition act_evs (a : act) : list ev :=
-  match a with AIns p => [ev_of_payload p] | AMark fs m => marks m fs end.
+  match a with AIns p => [ev_of_payload p] | AMark fs m => marks m fs | AUnsup _ _ => [] end.
 Definition loc_evs (l : lst) : list ev :=
-  match l with LIdle => [] | LMark fs m => marks m fs | LCas fs m f _ _ => EDown m (Some f) :: marks m fs end.
+  match l with LIdle => [] | LMark fs m => marks m fs | LCas fs m f _ _ => EDown m (Some f) :: marks m fs | LPanic _ _ => [] end.
 Definition pend (th : thr) : list ev := loc_evs (t_loc th) ++ flat_map act_evs (t_todo th).
 (* the store-level events of a program, one bitmap at a time *)
 Definition micro_evs (p : list update) : list ev := flat_map act_evs (acts_of_prog p).
@@ -203,12 +225,17 @@ Proof.
   destruct (Nat.eqb t' t) eqn:Et.
   - apply Nat.eqb_eq in Et as ->. rewrite Hth.
     assert (t < length (c_thr c)) as Hlt by (eapply lookup_lt_Some, Hth).
-    destruct (t_loc th) as [|fs m|fs m f st new] eqn:Eloc.
-    + destruct (t_todo th) as [|[p|fs m] rest] eqn:Etodo.
+    destruct (t_loc th) as [|fs m|fs m f st new|m f] eqn:Eloc.
+    + destruct (t_todo th) as [|[p|fs m|m f] rest] eqn:Etodo.
       * exists th. split; [exact Hth|]. reflexivity.
       * eexists. cbn [c_thr]. rewrite list_lookup_insert by exact Hlt. split; [reflexivity|].
         unfold pend. rewrite Eloc, Etodo. reflexivity.
-      * assert (forall lk, exists th', c_thr (MkC (c_rib c) (c_stamps c) lk (<[t:=MkThr rest (LMark fs m)]> (c_thr c)) (c_fail c)) !! t = Some th' /\
+      * assert (forall lk, exists th', c_thr (MkC (c_rib c) (c_stamps c) lk (<[t:=MkThr rest (LMark fs m)]> (c_thr c)) (c_fail c) (c_poison c) (c_panics c)) !! t = Some th' /\
+                  ev_list None ++ pend th' = pend th) as H.
+        { intros lk. eexists. cbn [c_thr]. rewrite list_lookup_insert by exact Hlt. split; [reflexivity|].
+          unfold pend. rewrite Eloc, Etodo. cbn. reflexivity. }
+        destruct ser; [destruct (c_lock c)|]; [exists th; split; [exact Hth|reflexivity]|apply H|apply H].
+      * assert (forall lk, exists th', c_thr (MkC (c_rib c) (c_stamps c) lk (<[t:=MkThr rest (LPanic m f)]> (c_thr c)) (c_fail c) (c_poison c) (c_panics c)) !! t = Some th' /\
                   ev_list None ++ pend th' = pend th) as H.
         { intros lk. eexists. cbn [c_thr]. rewrite list_lookup_insert by exact Hlt. split; [reflexivity|].
           unfold pend. rewrite Eloc, Etodo. cbn. reflexivity. }
@@ -217,15 +244,19 @@ Proof.
         unfold pend; rewrite Eloc; reflexivity.
     + destruct (bool_decide (stamp c f = st)); eexists; cbn [c_thr]; rewrite list_lookup_insert by exact Hlt;
         (split; [reflexivity|]); unfold pend; rewrite Eloc; reflexivity.
+    + eexists. cbn [c_thr]. rewrite list_lookup_insert by exact Hlt. split; [reflexivity|].
+      unfold pend. rewrite Eloc. reflexivity.
   - apply Nat.eqb_neq in Et.
     destruct (c_thr c !! t') as [th0|] eqn:Eth0; [|exists th; split; [exact Hth|reflexivity]].
     assert (forall x, <[t':=x]> (c_thr c) !! t = Some th) as Hins by (intros x; rewrite list_lookup_insert_ne by exact Et; exact Hth).
-    destruct (t_loc th0) as [|fs m|fs m f st new].
-    + destruct (t_todo th0) as [|[p|fs m] rest]; [exists th; split; [exact Hth|reflexivity]| |].
+    destruct (t_loc th0) as [|fs m|fs m f st new|m f].
+    + destruct (t_todo th0) as [|[p|fs m|m f] rest]; [exists th; split; [exact Hth|reflexivity]| | |].
       * exists th. split; [apply Hins|reflexivity].
+      * destruct ser; [destruct (c_lock c)|]; exists th; (split; [first [exact Hth|apply Hins]|reflexivity]).
       * destruct ser; [destruct (c_lock c)|]; exists th; (split; [first [exact Hth|apply Hins]|reflexivity]).
     + destruct fs; exists th; (split; [apply Hins|reflexivity]).
     + destruct (bool_decide (stamp c f = st)); exists th; (split; [apply Hins|reflexivity]).
+    + exists th. split; [apply Hins|reflexivity].
 Qed.
 
 Lemma step_ev_thr c t e : step_ev c t = Some e -> exists th, c_thr c !! t = Some th.
@@ -292,13 +323,7 @@ Proof.
         destruct Hin as [[= -> ->]|[]]. apply step_ev_thr in Ee as (th & Hth). congruence.
       - eapply IH; [|exact Hin].
         destruct (c_thr (step ser c t') !! t) as [th|] eqn:E; [|reflexivity]. exfalso.
-        assert (length (c_thr (step ser c t')) = length (c_thr c)) as Hl.
-        { unfold step. destruct (c_thr c !! t') as [th0|]; [|reflexivity].
-          destruct (t_loc th0) as [|fs m|fs m f st new].
-          - destruct (t_todo th0) as [|[p|fs m] rest]; [reflexivity|cbn; apply insert_length|].
-            destruct ser; [destruct (c_lock c)|]; [reflexivity|cbn; apply insert_length|cbn; apply insert_length].
-          - destruct fs; cbn; apply insert_length.
-          - destruct (bool_decide _); cbn; apply insert_length. }
+        pose proof (step_length ser c t') as Hl.
         apply lookup_lt_Some in E. apply lookup_ge_None in Hn. lia. }
     eapply Hno; [|exact Hin]. unfold init. cbn [c_thr]. rewrite list_lookup_fmap, Hp. reflexivity.
 Qed.
@@ -313,12 +338,13 @@ Proof.
 Qed.
 
 Lemma fold_act_evs u : forall r,
-  fold_left rib_ev (flat_map act_evs (acts_of_update u)) r = rib_apply r u.
+  fold_left rib_ev (flat_map act_evs (acts_of_update u)) r = rib_apply r (eff_update u).
 Proof.
-  destruct u as [ps|m fo|ms|]; intros r; cbn [acts_of_update rib_apply flat_map]; try reflexivity.
+  destruct u as [ps|m fo|ms|]; intros r; cbn [acts_of_update eff_update rib_apply flat_map]; try reflexivity.
   - revert r. induction ps as [|p ps IH]; intros r; [reflexivity|].
     cbn [map flat_map act_evs app fold_left]. rewrite IH, rib_insert_payload_ev. reflexivity.
-  - rewrite app_nil_r. cbn [act_evs]. destruct fo as [f|]; [reflexivity|]. apply fold_marks_all.
+  - destruct (unsupported fo) as [f'|]; [reflexivity|]. cbn [flat_map rib_apply].
+    rewrite app_nil_r. cbn [act_evs]. destruct fo as [f|]; [reflexivity|]. apply fold_marks_all.
   - revert r. induction ms as [|m ms IH]; intros r; [reflexivity|].
     cbn [map flat_map act_evs fold_left]. rewrite fold_left_app, fold_marks_all. apply IH.
 Qed.
@@ -329,10 +355,21 @@ Proof. unfold micro_evs, acts_of_prog. cbn [flat_map]. rewrite flat_map_app. ref
 Lemma micro_evs_app p q : micro_evs (p ++ q) = micro_evs p ++ micro_evs q.
 Proof. unfold micro_evs, acts_of_prog. rewrite !flat_map_app. reflexivity. Qed.
 
-Lemma replay_micro p : forall r, fold_left rib_ev (micro_evs p) r = fold_left rib_apply p r.
+Lemma replay_micro p : forall r, fold_left rib_ev (micro_evs p) r = fold_left rib_apply (effective p) r.
 Proof.
   induction p as [|u p IH]; intros r; [reflexivity|].
-  rewrite micro_evs_cons, fold_left_app, fold_act_evs. cbn [fold_left]. apply IH.
+  rewrite micro_evs_cons, fold_left_app, fold_act_evs. cbn [effective map fold_left]. apply IH.
+Qed.
+
+Lemma effective_concat progs : effective (concat progs) = concat (map effective progs).
+Proof. unfold effective. apply concat_map. Qed.
+
+(* a program without unsupported requests is its own effect *)
+Lemma effective_id p : (forall m fo, In (UWithdraw m fo) p -> unsupported fo = None) -> effective p = p.
+Proof.
+  induction p as [|u p IH]; intros H; [reflexivity|]. cbn [effective map]. fold (effective p).
+  rewrite IH by (intros m fo Hin; apply (H m fo); right; exact Hin). f_equal.
+  destruct u as [ps|m fo|ms|]; try reflexivity. cbn [eff_update]. rewrite (H m fo) by (left; reflexivity). reflexivity.
 Qed.
 
 Lemma micro_evs_concat progs : micro_evs (concat progs) = concat (map micro_evs progs).
@@ -422,7 +459,8 @@ Proof.
   - induction ps as [|p ps IH]; [intros []|]. cbn [map flat_map act_evs app].
     intros [<-|H]; [left|right; apply IH, H].
     unfold ev_of_payload. destruct (p_active p); reflexivity.
-  - rewrite app_nil_r. cbn [act_evs]. unfold marks. intros H. apply in_map_iff in H as (f & <- & _). left. reflexivity.
+  - destruct (unsupported fo) as [f'|]; [intros []|]. cbn [flat_map].
+    rewrite app_nil_r. cbn [act_evs]. unfold marks. intros H. apply in_map_iff in H as (f & <- & _). left. reflexivity.
   - induction ms as [|m ms IH]; [intros []|]. cbn [map flat_map act_evs]. intros H.
     apply in_app_or in H as [H|H]; [|right; apply IH, H].
     unfold marks in H. apply in_map_iff in H as (f & <- & _). left. reflexivity.
@@ -463,7 +501,7 @@ Proof. reflexivity. Qed.
    holds what running the writers one after the other would have left *)
 Theorem final_lookup_sequential ser progs s k :
   disjoint_ids progs -> all_done (run ser (init progs) s) = true ->
-  rib_lookup (c_rib (run ser (init progs) s)) k = rib_lookup (rib_run (concat progs)) k.
+  rib_lookup (c_rib (run ser (init progs) s)) k = rib_lookup (rib_run (effective (concat progs))) k.
 Proof.
   intros Hdis Hdone.
   rewrite run_rib by apply snap_ok_init. rewrite c_rib_init.
@@ -488,7 +526,7 @@ Qed.
 (* ... in particular what its owner alone would have left: last write wins *)
 Lemma lookup_owner_alone progs t p k :
   disjoint_ids progs -> progs !! t = Some p -> In (k_mui k) (prog_muis p) ->
-  rib_lookup (rib_run (concat progs)) k = rib_lookup (rib_run p) k.
+  rib_lookup (rib_run (effective (concat progs))) k = rib_lookup (rib_run (effective p)) k.
 Proof.
   intros Hdis Hp Hk. unfold rib_run. rewrite <- !replay_micro, micro_evs_concat.
   rewrite lookup_hits, (lookup_hits (micro_evs p)). f_equal. f_equal.
@@ -502,7 +540,7 @@ Qed.
 Theorem last_write_wins ser progs s t p k :
   disjoint_ids progs -> progs !! t = Some p -> In (k_mui k) (prog_muis p) ->
   all_done (run ser (init progs) s) = true ->
-  rib_lookup (c_rib (run ser (init progs) s)) k = rib_lookup (rib_run p) k.
+  rib_lookup (c_rib (run ser (init progs) s)) k = rib_lookup (rib_run (effective p)) k.
 Proof.
   intros Hdis Hp Hk Hdone. rewrite (final_lookup_sequential ser progs s k Hdis Hdone).
   apply (lookup_owner_alone progs t p k Hdis Hp Hk).
@@ -544,11 +582,11 @@ Qed.
 Lemma withdraws_micro p m fo f : withdraws p m fo -> In f (fams_of fo) -> In (EDown m (Some f)) (micro_evs p).
 Proof.
   intros Hw Hf. induction p as [|u p IH].
-  - destruct Hw as [[]|(_ & ms & [] & _)].
+  - destruct Hw as [[[] _]|(_ & ms & [] & _)].
   - rewrite micro_evs_cons. apply in_or_app.
-    destruct Hw as [[->|Hin]|(-> & ms & [->|Hin] & Hm)].
-    + left. cbn [acts_of_update flat_map act_evs]. rewrite app_nil_r. unfold marks. apply (in_map (fun f => EDown m (Some f))). exact Hf.
-    + right. apply IH. left. exact Hin.
+    destruct Hw as [[[->|Hin] Hsup]|(-> & ms & [->|Hin] & Hm)].
+    + left. cbn [acts_of_update]. rewrite Hsup. cbn [flat_map act_evs]. rewrite app_nil_r. unfold marks. apply (in_map (fun f => EDown m (Some f))). exact Hf.
+    + right. apply IH. left. split; [exact Hin|exact Hsup].
     + left. cbn [acts_of_update]. clear IH. induction ms as [|m' ms IHms]; [destruct Hm|].
       cbn [map flat_map act_evs]. apply in_or_app. destruct Hm as [->|Hm]; [left|right; apply IHms, Hm].
       unfold marks. apply (in_map (fun f => EDown m (Some f))). exact Hf.
@@ -602,16 +640,6 @@ Proof.
   intros ? ? ? ? ? [=].
 Qed.
 
-Lemma step_length ser c t : length (c_thr (step ser c t)) = length (c_thr c).
-Proof.
-  unfold step. destruct (c_thr c !! t) as [th0|]; [|reflexivity].
-  destruct (t_loc th0) as [|fs m|fs m f st new].
-  - destruct (t_todo th0) as [|[p|fs m] rest]; [reflexivity|cbn; apply insert_length|].
-    destruct ser; [destruct (c_lock c)|]; [reflexivity|cbn; apply insert_length|cbn; apply insert_length].
-  - destruct fs; cbn; apply insert_length.
-  - destruct (bool_decide _); cbn; apply insert_length.
-Qed.
-
 Lemma run_length ser s : forall c, length (c_thr (run ser c s)) = length (c_thr c).
 Proof.
   induction s as [|t s IH]; intros c; [reflexivity|].
@@ -624,49 +652,55 @@ Proof.
   destruct (c_thr c !! t) as [th|] eqn:Eth; [|exact Hall].
   assert (t < length (c_thr c)) as Hlt by (eapply lookup_lt_Some, Eth).
   destruct (Hthr t th Eth) as [Hown Hcas].
-  destruct (t_loc th) as [|fs m|fs m f st new] eqn:Eloc.
+  assert (c_lock c = Some t -> forall t' th', t <> t' -> c_thr c !! t' = Some th' -> t_loc th' = LIdle) as Hidle0.
+  { intros Hmine t' th' Hne Hth'. destruct (Hthr t' th' Hth') as [Hown' _].
+    destruct (t_loc th') eqn:E; [reflexivity| | |]; exfalso;
+      (assert (c_lock c = Some t') as H by (apply Hown'; discriminate)); congruence. }
+  (* taking the mutex: the same for a supported and an unsupported request *)
+  assert (forall rest l, l <> LIdle -> (forall fs m f st new, l <> LCas fs m f st new) -> c_lock c = None ->
+            lock_ok (MkC (c_rib c) (c_stamps c) (Some t) (<[t:=MkThr rest l]> (c_thr c)) (c_fail c) (c_poison c) (c_panics c))) as Htake.
+  { intros rest l Hl Hnc Elock. split; [exact Hfail|]. cbn [c_lock c_thr]. split.
+    - intros h [= <-]. eexists. apply list_lookup_insert, Hlt.
+    - intros t' th' Hth'. apply thr_lookup_insert in Hth' as [(-> & -> & _)|(Hne & Hth')].
+      + cbn [t_loc]. split; [split; [intros _; exact Hl|reflexivity]|]. intros ? ? ? ? ? E. exfalso. exact (Hnc _ _ _ _ _ E).
+      + destruct (Hthr t' th' Hth') as [Hown' Hcas']. split; [|exact Hcas'].
+        split; [intros [= ->]; contradiction|]. intros H. apply Hown' in H. rewrite Elock in H. discriminate. }
+  (* dropping the guard: by returning or by unwinding *)
+  assert (forall po pa, c_lock c = Some t ->
+            lock_ok (MkC (c_rib c) (c_stamps c) None (<[t:=MkThr (t_todo th) LIdle]> (c_thr c)) (c_fail c) po pa)) as Hdrop.
+  { intros po pa Hmine. split; [exact Hfail|]. cbn [c_lock c_thr]. split; [intros h [=]|].
+    intros t' th' Hth'. apply thr_lookup_insert in Hth' as [(-> & -> & _)|(Hne & Hth')].
+    - cbn [t_loc]. split; [split; [intros [=]|intros H; contradiction]|intros ? ? ? ? ? [=]].
+    - rewrite (Hidle0 Hmine t' th' Hne Hth'). split; [split; [intros [=]|intros H; contradiction]|intros ? ? ? ? ? [=]]. }
+  destruct (t_loc th) as [|fs m|fs m f st new|m f] eqn:Eloc.
   - assert (c_lock c <> Some t) as Hnot by (intros H; apply Hown in H; contradiction).
-    destruct (t_todo th) as [|[p|fs m] rest] eqn:Etodo; [exact Hall| |].
+    destruct (t_todo th) as [|[p|fs m|m f] rest] eqn:Etodo; [exact Hall| | |].
     + split; [exact Hfail|]. cbn [c_lock c_thr]. split.
       * intros h Hh. destruct (Hlk h Hh) as (th' & Hth'). destruct (decide (t = h)) as [->|Hne]; [congruence|].
         exists th'. rewrite list_lookup_insert_ne by exact Hne. exact Hth'.
       * intros t' th' Hth'. apply thr_lookup_insert in Hth' as [(-> & -> & _)|(Hne & Hth')].
         -- cbn [t_loc]. split; [split; [intros H; contradiction|intros H; contradiction]|intros ? ? ? ? ? [=]].
         -- exact (Hthr t' th' Hth').
-    + destruct (c_lock c) as [h|] eqn:Elock; [exact Hall|].
-      split; [exact Hfail|]. cbn [c_lock c_thr]. split.
-      * intros h [= <-]. eexists. apply list_lookup_insert, Hlt.
-      * intros t' th' Hth'. apply thr_lookup_insert in Hth' as [(-> & -> & _)|(Hne & Hth')].
-        -- cbn [t_loc]. split; [split; [intros _ [=]|reflexivity]|intros ? ? ? ? ? [=]].
-        -- destruct (Hthr t' th' Hth') as [Hown' Hcas']. split; [|exact Hcas'].
-           split; [intros [= ->]; contradiction|]. intros H. apply Hown' in H. discriminate.
+    + destruct (c_lock c) as [h|] eqn:Elock; [exact Hall|]. apply Htake; [discriminate|discriminate|reflexivity].
+    + destruct (c_lock c) as [h|] eqn:Elock; [exact Hall|]. apply Htake; [discriminate|discriminate|reflexivity].
   - assert (c_lock c = Some t) as Hmine by (apply Hown; discriminate).
-    assert (forall t' th', t <> t' -> c_thr c !! t' = Some th' -> t_loc th' = LIdle) as Hidle.
-    { intros t' th' Hne Hth'. destruct (Hthr t' th' Hth') as [Hown' _].
-      destruct (t_loc th') eqn:E; [reflexivity| |]; exfalso;
-        (assert (c_lock c = Some t') as H by (apply Hown'; discriminate)); congruence. }
-    destruct fs as [|f fs].
-    + split; [exact Hfail|]. cbn [c_lock c_thr]. split; [intros h [=]|].
-      intros t' th' Hth'. apply thr_lookup_insert in Hth' as [(-> & -> & _)|(Hne & Hth')].
-      * cbn [t_loc]. split; [split; [intros [=]|intros H; contradiction]|intros ? ? ? ? ? [=]].
-      * rewrite (Hidle t' th' Hne Hth'). split; [split; [intros [=]|intros H; contradiction]|intros ? ? ? ? ? [=]].
-    + split; [exact Hfail|]. cbn [c_lock c_thr]. split.
-      * intros h Hh. rewrite Hmine in Hh. injection Hh as <-. eexists. apply list_lookup_insert, Hlt.
-      * intros t' th' Hth'. apply thr_lookup_insert in Hth' as [(-> & -> & _)|(Hne & Hth')].
-        -- cbn [t_loc]. split; [split; [intros _ [=]|intros _; exact Hmine]|].
-           intros ? ? ? ? ? [= <- <- <- <- <-]. rewrite stamp_keep. reflexivity.
-        -- rewrite (Hidle t' th' Hne Hth'). split; [split; [rewrite Hmine; intros [= ->]; contradiction|intros H; contradiction]|intros ? ? ? ? ? [=]].
+    pose proof (Hidle0 Hmine) as Hidle.
+    destruct fs as [|f fs]; [apply Hdrop, Hmine|].
+    split; [exact Hfail|]. cbn [c_lock c_thr]. split.
+    + intros h Hh. rewrite Hmine in Hh. injection Hh as <-. eexists. apply list_lookup_insert, Hlt.
+    + intros t' th' Hth'. apply thr_lookup_insert in Hth' as [(-> & -> & _)|(Hne & Hth')].
+      * cbn [t_loc]. split; [split; [intros _ [=]|intros _; exact Hmine]|].
+        intros ? ? ? ? ? [= <- <- <- <- <-]. rewrite stamp_keep. reflexivity.
+      * rewrite (Hidle t' th' Hne Hth'). split; [split; [rewrite Hmine; intros [= ->]; contradiction|intros H; contradiction]|intros ? ? ? ? ? [=]].
   - assert (c_lock c = Some t) as Hmine by (apply Hown; discriminate).
-    assert (forall t' th', t <> t' -> c_thr c !! t' = Some th' -> t_loc th' = LIdle) as Hidle.
-    { intros t' th' Hne Hth'. destruct (Hthr t' th' Hth') as [Hown' _].
-      destruct (t_loc th') eqn:E; [reflexivity| |]; exfalso;
-        (assert (c_lock c = Some t') as H by (apply Hown'; discriminate)); congruence. }
+    pose proof (Hidle0 Hmine) as Hidle.
     rewrite (Hcas _ _ _ _ _ eq_refl), bool_decide_true by reflexivity.
     split; [exact Hfail|]. cbn [c_lock c_thr]. split.
     + intros h Hh. rewrite Hmine in Hh. injection Hh as <-. eexists. apply list_lookup_insert, Hlt.
     + intros t' th' Hth'. apply thr_lookup_insert in Hth' as [(-> & -> & _)|(Hne & Hth')].
       * cbn [t_loc]. split; [split; [intros _ [=]|intros _; exact Hmine]|intros ? ? ? ? ? [=]].
       * rewrite (Hidle t' th' Hne Hth'). split; [split; [rewrite Hmine; intros [= ->]; contradiction|intros H; contradiction]|intros ? ? ? ? ? [=]].
+  - apply Hdrop. apply Hown. discriminate.
 Qed.
 
 Lemma lock_ok_run s : forall c, lock_ok c -> lock_ok (run true c s).
@@ -685,8 +719,8 @@ Proof.
   - cbn in H. specialize (IH t old new H). change (<[S t:=new]> (x :: l)) with (x :: <[t:=new]> l). cbn [map nsum]. lia.
 Qed.
 
-Lemma work_insert c ri st lk fl t old new : c_thr c !! t = Some old ->
-  work (MkC ri st lk (<[t := new]> (c_thr c)) fl) + thr_work old = work c + thr_work new.
+Lemma work_insert c ri st lk fl po pa t old new : c_thr c !! t = Some old ->
+  work (MkC ri st lk (<[t := new]> (c_thr c)) fl po pa) + thr_work old = work c + thr_work new.
 Proof. intros H. unfold work. cbn [c_thr]. apply nsum_insert, H. Qed.
 
 (* a step of the repaired code either changes nothing (the thread is finished
@@ -697,24 +731,30 @@ Proof.
   intros (Hfail & Hlk & Hthr). unfold step, enabled.
   destruct (c_thr c !! t) as [th|] eqn:Eth; [|left; split; reflexivity].
   destruct (Hthr t th Eth) as [Hown Hcas].
-  destruct (t_loc th) as [|fs m|fs m f st new] eqn:Eloc.
-  - destruct (t_todo th) as [|[p|fs m] rest] eqn:Etodo; [left; split; reflexivity| |].
+  destruct (t_loc th) as [|fs m|fs m f st new|m f] eqn:Eloc.
+  - destruct (t_todo th) as [|[p|fs m|m f] rest] eqn:Etodo; [left; split; reflexivity| | |].
     + right. split; [reflexivity|].
-      pose proof (work_insert c (rib_insert_payload (c_rib c) p) (c_stamps c) (c_lock c) (c_fail c) t th (MkThr rest LIdle) Eth) as H.
+      pose proof (work_insert c (rib_insert_payload (c_rib c) p) (c_stamps c) (c_lock c) (c_fail c) (c_poison c) (c_panics c) t th (MkThr rest LIdle) Eth) as H.
       unfold thr_work in H. rewrite Eloc, Etodo in H. cbn [t_loc t_todo loc_cost map nsum act_cost length] in H. lia.
     + destruct (c_lock c); [left; split; reflexivity|]. right. split; [reflexivity|].
-      pose proof (work_insert c (c_rib c) (c_stamps c) (Some t) (c_fail c) t th (MkThr rest (LMark fs m)) Eth) as H.
+      pose proof (work_insert c (c_rib c) (c_stamps c) (Some t) (c_fail c) (c_poison c) (c_panics c) t th (MkThr rest (LMark fs m)) Eth) as H.
+      unfold thr_work in H. rewrite Eloc, Etodo in H. cbn [t_loc t_todo loc_cost map nsum act_cost length] in H. lia.
+    + destruct (c_lock c); [left; split; reflexivity|]. right. split; [reflexivity|].
+      pose proof (work_insert c (c_rib c) (c_stamps c) (Some t) (c_fail c) (c_poison c) (c_panics c) t th (MkThr rest (LPanic m f)) Eth) as H.
       unfold thr_work in H. rewrite Eloc, Etodo in H. cbn [t_loc t_todo loc_cost map nsum act_cost length] in H. lia.
   - right. split; [destruct (t_todo th); reflexivity|]. destruct fs as [|f fs].
-    + pose proof (work_insert c (c_rib c) (c_stamps c) None (c_fail c) t th (MkThr (t_todo th) LIdle) Eth) as H.
+    + pose proof (work_insert c (c_rib c) (c_stamps c) None (c_fail c) (c_poison c) (c_panics c) t th (MkThr (t_todo th) LIdle) Eth) as H.
       unfold thr_work in H. rewrite Eloc in H. cbn [t_loc t_todo loc_cost map nsum act_cost length] in H. lia.
-    + pose proof (work_insert c (c_rib c) (c_stamps c) (c_lock c) (c_fail c) t th
+    + pose proof (work_insert c (c_rib c) (c_stamps c) (c_lock c) (c_fail c) (c_poison c) (c_panics c) t th
                     (MkThr (t_todo th) (LCas fs m f (stamp c f) ({[(f, m)]} ∪ wdm (c_rib c)))) Eth) as H.
       unfold thr_work in H. rewrite Eloc in H. cbn [t_loc t_todo loc_cost map nsum act_cost length] in H. lia.
   - right. split; [destruct (t_todo th); reflexivity|].
     rewrite (Hcas _ _ _ _ _ eq_refl), bool_decide_true by reflexivity.
     pose proof (work_insert c (MkRib (recs (c_rib c)) (fam_part f new ∪ fam_rest f (wdm (c_rib c))))
-                  (<[f:=(stamp c f + 1)%N]> (c_stamps c)) (c_lock c) (c_fail c) t th (MkThr (t_todo th) (LMark fs m)) Eth) as H.
+                  (<[f:=(stamp c f + 1)%N]> (c_stamps c)) (c_lock c) (c_fail c) (c_poison c) (c_panics c) t th (MkThr (t_todo th) (LMark fs m)) Eth) as H.
+    unfold thr_work in H. rewrite Eloc in H. cbn [t_loc t_todo loc_cost map nsum act_cost length] in H. lia.
+  - right. split; [destruct (t_todo th); reflexivity|].
+    pose proof (work_insert c (c_rib c) (c_stamps c) None (c_fail c) true (c_panics c ++ [(t, PUnsup m f)]) t th (MkThr (t_todo th) LIdle) Eth) as H.
     unfold thr_work in H. rewrite Eloc in H. cbn [t_loc t_todo loc_cost map nsum act_cost length] in H. lia.
 Qed.
 
@@ -732,12 +772,13 @@ Proof.
   intros (Hfail & Hlk & Hthr) Hnd. destruct (c_lock c) as [h|] eqn:Elock.
   - destruct (Hlk h eq_refl) as (th & Hth). exists h. split; [eapply lookup_lt_Some, Hth|].
     unfold enabled. rewrite Hth. destruct (Hthr h th Hth) as [Hown _].
-    destruct (t_loc th) eqn:E; [exfalso; apply Hown; reflexivity| |]; destruct (t_todo th); reflexivity.
+    destruct (t_loc th) eqn:E; [exfalso; apply Hown; reflexivity| | |]; destruct (t_todo th); reflexivity.
   - apply not_all_ex in Hnd as (t & th & Hth & Hd). exists t. split; [eapply lookup_lt_Some, Hth|].
     unfold enabled. rewrite Hth, Elock. destruct (Hthr t th Hth) as [Hown _].
     unfold thr_done in Hd.
     destruct (t_loc th) eqn:E.
-    + destruct (t_todo th) as [|[|]]; [discriminate|reflexivity|reflexivity].
+    + destruct (t_todo th) as [|[| |]]; [discriminate|reflexivity|reflexivity|reflexivity].
+    + destruct (t_todo th); reflexivity.
     + destruct (t_todo th); reflexivity.
     + destruct (t_todo th); reflexivity.
 Qed.
@@ -829,12 +870,13 @@ Qed.
 Lemma stamp_mono ser c t f : (stamp c f <= stamp (step ser c t) f)%N.
 Proof.
   unfold step. destruct (c_thr c !! t) as [th|]; [|lia].
-  destruct (t_loc th) as [|fs m|fs m f' st new].
-  - destruct (t_todo th) as [|[p|fs m] rest]; [lia|rewrite stamp_keep; lia|].
-    destruct ser; [destruct (c_lock c)|]; rewrite ?stamp_keep; lia.
+  destruct (t_loc th) as [|fs m|fs m f' st new|m f'].
+  - destruct (t_todo th) as [|[p|fs m|m f'] rest]; [lia|rewrite stamp_keep; lia| |];
+      (destruct ser; [destruct (c_lock c)|]; rewrite ?stamp_keep; lia).
   - destruct fs; rewrite stamp_keep; lia.
   - destruct (bool_decide (stamp c f' = st)) eqn:Hb; [|rewrite stamp_keep; lia].
     apply bool_decide_eq_true in Hb. rewrite stamp_insert. destruct (decide (f' = f)) as [->|]; lia.
+  - rewrite stamp_keep. lia.
 Qed.
 
 Lemma step_other ser c t t' : t <> t' -> c_thr (step ser c t) !! t' = c_thr c !! t'.
@@ -887,9 +929,9 @@ Lemma fail_makes_stuck ser c t : snap_ok c -> c_fail (step ser c t) <> c_fail c 
 Proof.
   intros Hok Hf. unfold step in *.
   destruct (c_thr c !! t) as [th|] eqn:Eth; [|contradiction].
-  destruct (t_loc th) as [|fs m|fs m f st new] eqn:Eloc.
-  - destruct (t_todo th) as [|[p|fs m] rest]; [contradiction|cbn in Hf; contradiction|].
-    destruct ser; [destruct (c_lock c)|]; cbn in Hf; contradiction.
+  destruct (t_loc th) as [|fs m|fs m f st new|m f] eqn:Eloc; [| | |cbn in Hf; contradiction].
+  - destruct (t_todo th) as [|[p|fs m|m f] rest]; [contradiction|cbn in Hf; contradiction| |];
+      (destruct ser; [destruct (c_lock c)|]; cbn in Hf; contradiction).
   - destruct fs; cbn in Hf; contradiction.
   - destruct (Hok _ _ _ _ _ _ _ Eth Eloc) as [Hle _].
     destruct (bool_decide (stamp c f = st)) eqn:Hb; [cbn in Hf; contradiction|].
@@ -963,9 +1005,234 @@ Proof. vm_compute. repeat split; reflexivity. Qed.
 Theorem last_write_is_last_event ser progs s t p k :
   disjoint_ids progs -> progs !! t = Some p -> In (k_mui k) (prog_muis p) ->
   all_done (run ser (init progs) s) = true ->
-  known_c03 (evs_of p) k = false ->
-  rib_lookup (c_rib (run ser (init progs) s)) k = spec_lookup (evs_of p) k.
+  known_c03 (evs_of (effective p)) k = false ->
+  rib_lookup (c_rib (run ser (init progs) s)) k = spec_lookup (evs_of (effective p)) k.
 Proof.
   intros Hdis Hp Hk Hdone Hkn. rewrite (last_write_wins ser progs s t p k Hdis Hp Hk Hdone).
   apply rib_lookup_spec_exact, Hkn.
+Qed.
+
+(* ------------------------------------------------------------------ *)
+(* 7. requests the RIB has no arm for: the panic is the outcome of that *)
+(*    one call and of no other; the mutex it poisons is taken all the   *)
+(*    same (sections 3 and 4 hold for programs with such requests: the  *)
+(*    RIB is the one of [effective], every fair schedule finishes)      *)
+(* ------------------------------------------------------------------ *)
+
+Definition act_pans (a : act) : list pan := match a with AUnsup m f => [PUnsup m f] | _ => [] end.
+Definition loc_pans (l : lst) : list pan := match l with LPanic m f => [PUnsup m f] | _ => [] end.
+(* the panics a thread still has in front of it *)
+Definition pend_pans (th : thr) : list pan := loc_pans (t_loc th) ++ flat_map act_pans (t_todo th).
+(* the panic a step of thread t raises, if any *)
+Definition step_pan (c : cst) (t : nat) : list pan :=
+  match c_thr c !! t with Some th => loc_pans (t_loc th) | None => [] end.
+
+Lemma pans_of_app t l1 l2 : pans_of t (l1 ++ l2) = pans_of t l1 ++ pans_of t l2.
+Proof.
+  induction l1 as [|[t' x] l1 IH]; [reflexivity|]. cbn. destruct (Nat.eqb t' t); cbn; rewrite IH; reflexivity.
+Qed.
+
+Lemma pans_of_pair t' t l : pans_of t (map (pair t') l) = if Nat.eqb t' t then l else [].
+Proof.
+  induction l as [|x l IH]; [destruct (Nat.eqb t' t); reflexivity|]. cbn [map pans_of].
+  destruct (Nat.eqb t' t); [rewrite IH; reflexivity|exact IH].
+Qed.
+
+Lemma in_pans_of t x l : In (t, x) l <-> In x (pans_of t l).
+Proof.
+  induction l as [|[t' x'] l IH]; [reflexivity|]. cbn [In pans_of]. destruct (Nat.eqb t' t) eqn:E.
+  - apply Nat.eqb_eq in E as ->. cbn [In]. rewrite <- IH. split; (intros [H|H]; [left; congruence|right; exact H]).
+  - apply Nat.eqb_neq in E. rewrite <- IH. split; [intros [H|H]; [congruence|exact H]|intros H; right; exact H].
+Qed.
+
+(* the log grows by what the step raises, and only at its end *)
+Lemma step_panics ser c t : c_panics (step ser c t) = c_panics c ++ map (pair t) (step_pan c t).
+Proof.
+  unfold step, step_pan. destruct (c_thr c !! t) as [th|]; [|symmetry; apply app_nil_r].
+  destruct (t_loc th) as [|fs m|fs m f st new|m f]; cbn [loc_pans map].
+  - destruct (t_todo th) as [|[p|fs m|m f] rest]; [| |destruct ser; [destruct (c_lock c)|]|destruct ser; [destruct (c_lock c)|]];
+      cbn [c_panics]; symmetry; apply app_nil_r.
+  - destruct fs; cbn [c_panics]; symmetry; apply app_nil_r.
+  - destruct (bool_decide _); cbn [c_panics]; symmetry; apply app_nil_r.
+  - reflexivity.
+Qed.
+
+(* a step of t' leaves the other threads' accounts alone and moves at most
+   one pending panic of t' into the log *)
+Lemma step_pans ser c t' t th :
+  c_thr c !! t = Some th ->
+  exists th', c_thr (step ser c t') !! t = Some th' /\
+    pans_of t (c_panics (step ser c t')) ++ pend_pans th' = pans_of t (c_panics c) ++ pend_pans th.
+Proof.
+  intros Hth.
+  destruct (Nat.eqb t' t) eqn:Et.
+  - apply Nat.eqb_eq in Et as ->.
+    enough (exists th', c_thr (step ser c t) !! t = Some th' /\ step_pan c t ++ pend_pans th' = pend_pans th) as (th' & H1 & H2)
+      by (exists th'; split; [exact H1|rewrite step_panics, pans_of_app, pans_of_pair, Nat.eqb_refl, <- app_assoc, H2; reflexivity]).
+    unfold step, step_pan. rewrite Hth.
+    assert (t < length (c_thr c)) as Hlt by (eapply lookup_lt_Some, Hth).
+    destruct (t_loc th) as [|fs m|fs m f st new|m f] eqn:Eloc; cbn [loc_pans app].
+    + destruct (t_todo th) as [|[p|fs m|m f] rest] eqn:Etodo.
+      * exists th. split; [exact Hth|reflexivity].
+      * eexists. cbn [c_thr]. rewrite list_lookup_insert by exact Hlt. split; [reflexivity|].
+        unfold pend_pans. rewrite Eloc, Etodo. reflexivity.
+      * destruct ser; [destruct (c_lock c)|]; [exists th; split; [exact Hth|reflexivity]| |];
+          (eexists; cbn [c_thr]; rewrite list_lookup_insert by exact Hlt; split; [reflexivity|];
+           unfold pend_pans; rewrite Eloc, Etodo; reflexivity).
+      * destruct ser; [destruct (c_lock c)|]; [exists th; split; [exact Hth|reflexivity]| |];
+          (eexists; cbn [c_thr]; rewrite list_lookup_insert by exact Hlt; split; [reflexivity|];
+           unfold pend_pans; rewrite Eloc, Etodo; reflexivity).
+    + destruct fs as [|f fs]; eexists; cbn [c_thr]; rewrite list_lookup_insert by exact Hlt; (split; [reflexivity|]);
+        unfold pend_pans; rewrite Eloc; reflexivity.
+    + destruct (bool_decide (stamp c f = st)); eexists; cbn [c_thr]; rewrite list_lookup_insert by exact Hlt;
+        (split; [reflexivity|]); unfold pend_pans; rewrite Eloc; reflexivity.
+    + eexists. cbn [c_thr]. rewrite list_lookup_insert by exact Hlt. split; [reflexivity|].
+      unfold pend_pans. rewrite Eloc. reflexivity.
+  - exists th. rewrite step_panics, pans_of_app, pans_of_pair, Et, app_nil_r.
+    apply Nat.eqb_neq in Et. rewrite step_other by exact Et. split; [exact Hth|reflexivity].
+Qed.
+
+Lemma conserve_pans ser s : forall c t th, c_thr c !! t = Some th ->
+  exists th', c_thr (run ser c s) !! t = Some th' /\
+    pans_of t (c_panics (run ser c s)) ++ pend_pans th' = pans_of t (c_panics c) ++ pend_pans th.
+Proof.
+  induction s as [|t' s IH]; intros c t th Hth.
+  - exists th. split; [exact Hth|reflexivity].
+  - cbn [run fold_left]. fold (run ser (step ser c t') s).
+    destruct (step_pans ser c t' t th Hth) as (th1 & Hth1 & Hrel).
+    destruct (IH _ _ _ Hth1) as (th2 & Hth2 & Hcons).
+    exists th2. split; [exact Hth2|]. rewrite Hcons. exact Hrel.
+Qed.
+
+Lemma acts_pans u : flat_map act_pans (acts_of_update u) = upd_pans u.
+Proof.
+  destruct u as [ps|m fo|ms|]; cbn [acts_of_update upd_pans]; [| | |reflexivity].
+  - induction ps as [|p ps IH]; [reflexivity|exact IH].
+  - destruct (unsupported fo); reflexivity.
+  - induction ms as [|m ms IH]; [reflexivity|exact IH].
+Qed.
+
+Lemma prog_pans p : flat_map act_pans (acts_of_prog p) = flat_map upd_pans p.
+Proof.
+  induction p as [|u p IH]; [reflexivity|]. unfold acts_of_prog in *. cbn [flat_map].
+  rewrite flat_map_app, IH, acts_pans. reflexivity.
+Qed.
+
+Lemma thr_done_pend_pans th : thr_done th = true -> pend_pans th = [].
+Proof. unfold thr_done, pend_pans. destruct (t_todo th), (t_loc th); try discriminate. reflexivity. Qed.
+
+(* MAIN 6: the calls of writer t that ended in a panic are, in program order,
+   its requests for a family the RIB has no arm for - a prefix of them at any
+   moment of any interleaving, all of them once the writer is done. No other
+   call of t, and (for every t) no call of another writer, panics. *)
+Theorem panics_exact ser progs s t p : progs !! t = Some p ->
+  exists rest, pans_of t (c_panics (run ser (init progs) s)) ++ rest = flat_map upd_pans p /\
+    (done_at (run ser (init progs) s) t = true -> rest = []).
+Proof.
+  intros Hp. destruct (conserve_pans ser s _ _ _ (init_thr _ _ _ Hp)) as (th' & Hth' & Hc).
+  exists (pend_pans th'). split.
+  - rewrite Hc. unfold pend_pans. cbn [init c_panics pans_of t_loc t_todo loc_pans app]. apply prog_pans.
+  - unfold done_at. rewrite Hth'. apply thr_done_pend_pans.
+Qed.
+
+Lemma no_thread_no_panic ser t x s : forall c, c_thr c !! t = None -> ~ In (t, x) (c_panics c) ->
+  ~ In (t, x) (c_panics (run ser c s)).
+Proof.
+  induction s as [|t' s IH]; intros c Hn Hno; [exact Hno|].
+  change (run ser c (t' :: s)) with (run ser (step ser c t') s). apply IH.
+  - apply lookup_ge_None. rewrite step_length. apply lookup_ge_None, Hn.
+  - rewrite step_panics. intros Hin. apply in_app_or in Hin as [Hin|Hin]; [exact (Hno Hin)|].
+    apply in_map_iff in Hin as (y & [= -> ->] & Hy). unfold step_pan in Hy. rewrite Hn in Hy. destruct Hy.
+Qed.
+
+Lemma upd_pans_in p x : In x (flat_map upd_pans p) ->
+  exists m f, x = PUnsup m f /\ In (UWithdraw m (Some f)) p /\ fam_supported f = false.
+Proof.
+  induction p as [|u p IH]; [intros []|]. cbn [flat_map]. intros H. apply in_app_or in H as [H|H].
+  - destruct u as [ps|m fo|ms|]; try destruct H. cbn [upd_pans] in H.
+    destruct fo as [f|]; cbn [unsupported] in H; [|destruct H].
+    destruct (fam_supported f) eqn:Ef; [destruct H|]. destruct H as [<-|[]].
+    exists m, f. split; [reflexivity|]. split; [left; reflexivity|exact Ef].
+  - destruct (IH H) as (m & f & -> & Hin & Hf). exists m, f. split; [reflexivity|]. split; [right; exact Hin|exact Hf].
+Qed.
+
+(* every entry of the log, whoever made it *)
+Theorem only_unsupported_requests_panic ser progs s t x :
+  In (t, x) (c_panics (run ser (init progs) s)) ->
+  exists p m f, progs !! t = Some p /\ x = PUnsup m f /\ In (UWithdraw m (Some f)) p /\ fam_supported f = false.
+Proof.
+  intros Hin. destruct (progs !! t) as [p|] eqn:Hp.
+  - destruct (panics_exact ser progs s t p Hp) as (rest & Heq & _).
+    apply in_pans_of in Hin.
+    assert (In x (flat_map upd_pans p)) as Hx by (rewrite <- Heq; apply in_or_app; left; exact Hin).
+    destruct (upd_pans_in p x Hx) as (m & f & -> & Hu & Hf). exists p, m, f. auto.
+  - exfalso. eapply (no_thread_no_panic ser t x s (init progs)); [| |exact Hin].
+    + unfold init. cbn [c_thr]. rewrite list_lookup_fmap, Hp. reflexivity.
+    + intros [].
+Qed.
+
+(* ---- the mutex IS poisoned by such a panic (and stays so) ---- *)
+Definition poison_ok (c : cst) : Prop :=
+  c_poison c = match c_panics c with [] => false | _ => true end.
+
+Lemma poison_ok_step c t : poison_ok c -> poison_ok (step true c t).
+Proof.
+  unfold poison_ok. intros H. unfold step. destruct (c_thr c !! t) as [th|]; [|exact H].
+  destruct (t_loc th) as [|fs m|fs m f st new|m f].
+  - destruct (t_todo th) as [|[p|fs m|m f] rest]; [exact H|exact H| |]; (destruct (c_lock c); exact H).
+  - destruct fs; exact H.
+  - destruct (bool_decide _); exact H.
+  - cbn [c_poison c_panics]. destruct (c_panics c); reflexivity.
+Qed.
+
+Lemma poison_ok_run s : forall c, poison_ok c -> poison_ok (run true c s).
+Proof. induction s as [|t s IH]; intros c Hc; [exact Hc|]. cbn. apply IH, poison_ok_step, Hc. Qed.
+
+Theorem poisoned_iff_panicked progs s :
+  c_poison (run true (init progs) s) = true <-> c_panics (run true (init progs) s) <> [].
+Proof.
+  pose proof (poison_ok_run s (init progs) eq_refl) as H. unfold poison_ok in H. rewrite H.
+  destruct (c_panics (run true (init progs) s)); [split; [discriminate|intros Hn; contradiction]|split; [discriminate|reflexivity]].
+Qed.
+
+(* the scenario: one request for FlowSpec, then two sessions go down; on the
+   code as it is everything finishes, the lock is poisoned, the two sessions
+   are withdrawn, the panic is the FlowSpec request's alone *)
+Lemma poison_scenario :
+  let c := run true (init poison_progs) poison_sched in
+  all_done c = true /\ c_poison c = true /\ c_panics c = [(0, PUnsup 1%N 9%N)] /\
+  rib_lookup (c_rib c) (ex_key 0 7 1) = Some (true, 5%N) /\
+  rib_lookup (c_rib c) (ex_key 0 7 2) = Some (false, 3%N) /\
+  rib_lookup (c_rib c) (ex_key 1 7 3) = Some (false, 4%N) /\
+  rib_lookup (c_rib c) (ex_key 2 8 3) = Some (false, 4%N).
+Proof. vm_compute. repeat split; reflexivity. Qed.
+
+(* ---- COUNTERFACTUAL: `.lock().unwrap()` ---- *)
+Lemma strict_done_stays c t : all_done c = true -> step_strict c t = c.
+Proof.
+  intros Hd. unfold step_strict. destruct (c_thr c !! t) as [th|] eqn:Eth; [|reflexivity].
+  pose proof (all_done_at c t th Hd Eth) as H. unfold thr_done in H.
+  pose proof (done_stays c t Hd) as Hs.
+  destruct (t_todo th), (t_loc th); try discriminate. exact Hs.
+Qed.
+
+Lemma strict_done_stays_run s : forall c, all_done c = true -> run_strict c s = c.
+Proof. induction s as [|t s IH]; intros c Hd; [reflexivity|]. cbn. rewrite strict_done_stays by exact Hd. apply IH, Hd. Qed.
+
+(* REFUTATION for the counterfactual: after the one panic under the guard,
+   every later session-wide withdrawal of every other session panics before it
+   has marked anything - the writers finish, and the routes of sessions 2 and 3
+   stay active for ever, under every continuation of the schedule *)
+Theorem unwrap_on_poison_loses_withdrawals s :
+  let c := run_strict (init poison_progs) (poison_sched ++ s) in
+  all_done c = true /\
+  c_panics c = [(0, PUnsup 1%N 9%N); (1, PPoison 2%N); (2, PPoison 3%N)] /\
+  rib_lookup (c_rib c) (ex_key 0 7 2) = Some (true, 3%N) /\
+  rib_lookup (c_rib c) (ex_key 1 7 3) = Some (true, 4%N) /\
+  rib_lookup (c_rib c) (ex_key 2 8 3) = Some (true, 4%N).
+Proof.
+  cbv zeta. unfold run_strict. rewrite fold_left_app. fold (run_strict (init poison_progs) poison_sched).
+  set (c0 := run_strict (init poison_progs) poison_sched). fold (run_strict c0 s).
+  assert (all_done c0 = true) as Hd by (vm_compute; reflexivity).
+  rewrite (strict_done_stays_run s c0 Hd). vm_compute. repeat split; reflexivity.
 Qed.
